@@ -25,6 +25,9 @@ theorem gen_eq_model_stypes : Gen.Stats.stypes = Stype.all.map Stype.name := by 
 /-- `StatType.stats_for_stype` over every stype -/
 theorem gen_eq_model_statsFor : Gen.Stats.statsFor = statsForTable := by decide
 
+/-- the stypes merged into the embedding group (`stype.parent == embedding`) -/
+theorem gen_eq_model_embGroup : Gen.Stats.embGroup = embGroup.map Stype.name := by decide
+
 /-- the `_default_values` table -/
 theorem gen_eq_model_defaults : Gen.Stats.defaults = defaultsTable := by decide
 
@@ -78,6 +81,8 @@ theorem var_def (sqrt : α → α) (hsqrt : ∀ v, 0 ≤ v → 0 ≤ sqrt v ∧ 
 
 /-- a constant column has standard deviation 0 -/
 theorem var_const (c : α) (n : Nat) : variance (List.replicate (n + 1) c) = 0 := variance_const c n
+
+example : variance (List.replicate 3 (5 : ℚ)) = 0 := var_const 5 2
 
 /-- two values 1 and 3: population variance 1 (the sample variance would be 2) -/
 example : variance ([1, 3] : List ℚ) = 1 ∧ variance ([1, 3] : List ℚ) ≠ 2 := by
@@ -213,10 +218,14 @@ theorem oldest_le_all (year : Int → Int) (cells : List (Option Int)) (o : Int)
     (h : (timeStats year cells).oldest = some o) : some o ∈ cells ∧ ∀ t, some t ∈ cells → o ≤ t :=
   Stats.oldest_le_all year cells o h
 
+example : (timeStats yearOf [some 40, none, some 10, some 30]).oldest = some 10 := by decide
+
 /-- NEWEST_TIME is a non-missing time of the column and no non-missing time is later. -/
 theorem newest_ge_all (year : Int → Int) (cells : List (Option Int)) (w : Int)
     (h : (timeStats year cells).newest = some w) : some w ∈ cells ∧ ∀ t, some t ∈ cells → t ≤ w :=
   Stats.newest_ge_all year cells w h
+
+example : (timeStats yearOf [some 40, none, some 10, some 30]).newest = some 40 := by decide
 
 /-- MEDIAN_TIME is the **upper** median of the `n` non-missing times: the element with 0-based index `n/2`
     of the sorted times — the middle one for odd `n = 2k+1` (index `k`), the upper of the two middle ones
@@ -260,6 +269,18 @@ theorem emb_dim_def {γ : Type} (cells : List (Option (List γ))) (w : Nat)
   embDim_uniform cells w hne hw
 
 example : embDim [none, some [1, 2, 3], some [4, 5, 6]] = 3 := by decide
+
+/-- after materialization exactly the columns of the embedding group (embedding, text_embedded, image_embedded)
+    carry `EMB_DIM`, once; every other statistic list is that of `stats_for_stype`. -/
+theorem emb_dim_after_materialize (s : Stype) :
+    (StatType.EMB_DIM ∈ statsAfterMaterialize s ↔ s ∈ embGroup) ∧
+    (statsAfterMaterialize s).filter (· ≠ .EMB_DIM) = (statsFor s).filter (· ≠ .EMB_DIM) ∧
+    (statsAfterMaterialize s).Nodup := by
+  cases s <;> decide
+
+example : statsAfterMaterialize .text_embedded = [.EMB_DIM] ∧ statsFor .text_embedded = [] ∧
+    statsAfterMaterialize .embedding = [.EMB_DIM] ∧ statsAfterMaterialize .numerical = [.MEAN, .STD, .QUANTILES] := by
+  decide
 
 /-- a column with no usable value gets the neutral defaults of the `_default_values` table, never an error:
     numerical / sequence columns without a finite value (all missing, only ±inf, only NaN, only empty lists),
